@@ -254,12 +254,12 @@ Proof.
     destruct ch as [ws n]. apply chan_wire_push.
 Qed.
 
-Lemma iterate_after_head_len chunks : forall t ch is_first cl,
+Lemma iterate_after_head_len l1 chunks : forall t ch is_first cl,
   t_complete t = true -> t_wrote_header t = true -> t_clen t = Some cl ->
   t_chunked t = false -> has_body t = true ->
   (t_cbw t + Z.of_nat (length (concat chunks)) <= cl)%Z ->
   exists t' ch',
-    iterate cap lower c r None false false is_first (t, ch) (plain_steps chunks) = ((t', ch'), Ok tt)
+    iterate cap lower c r None false l1 is_first (t, ch) (plain_steps chunks) = ((t', ch'), Ok tt)
     /\ same_head t t' /\ t_cbw t' = (t_cbw t + Z.of_nat (length (concat chunks)))%Z
     /\ chan_wire ch' = chan_wire ch ++ concat chunks.
 Proof.
@@ -288,11 +288,11 @@ Qed.
 Lemma all_empty_concat chunks : all_empty chunks -> concat chunks = [].
 Proof. induction 1 as [|d l -> Hl IH]; cbn; auto. Qed.
 
-Lemma iterate_fresh_len chunks : forall t ch is_first cl s' o,
+Lemma iterate_fresh_len l1 chunks : forall t ch is_first cl s' o,
   t_complete t = true -> t_wrote_header t = false -> t_clen t = Some cl -> t_cbw t = 0%Z ->
   t_chunked (bh_prepare cap lower c r t) = false -> has_body t = true ->
   (Z.of_nat (length (concat chunks)) <= cl)%Z ->
-  iterate cap lower c r None false false is_first (t, ch) (plain_steps chunks) = (s', o) ->
+  iterate cap lower c r None false l1 is_first (t, ch) (plain_steps chunks) = (s', o) ->
   o = Ok tt ->
   (all_empty chunks /\ s' = (t, ch))
   \/ (exists tp head, build_response_header cap lower c r t = (tp, Ok head)
@@ -326,10 +326,10 @@ Proof.
       rewrite E2 in H. fold (plain_steps chunks) in H.
       pose proof S2 as (A1 & A2 & A3 & A4 & A5 & A6 & A7 & A8).
       cbn [t_status t_chunked t_cof t_wrote_header t_complete t_clen t_rh t_v11 t_cbw set_wrote] in *.
-      destruct (iterate_after_head_len chunks t2 ch2 false cl) as (t3 & ch3 & E3 & S3 & B3 & W3); try congruence.
+      destruct (iterate_after_head_len l1 chunks t2 ch2 false cl) as (t3 & ch3 & E3 & S3 & B3 & W3); try congruence.
       { rewrite (same_head_has_body _ _ S2). exact Hbp. }
       { rewrite B2, K4, Hcbw. lia. }
-      rewrite E3 in H. inversion H; subst. cbn [fst snd].
+      rewrite E3 in H. clear Etp. inversion H; subst. cbn [fst snd].
       exists tp, head. split; auto. split; [eapply same_head_trans; eauto|]. split.
       * rewrite B3, B2, K4, Hcbw. cbn [concat]. rewrite app_length, Nat2Z.inj_add. lia.
       * rewrite W3, W2, Hwire, <- !app_assoc. reflexivity.
